@@ -25,5 +25,7 @@ HARNESSES += [h for h in _load("sg_common").sg_harnesses(("SEL_RD",)) if h.name.
 HARNESSES += _load("blk_common").ima_harnesses(("SEL_SEEKREAD",))
 
 HARNESSES += _load("blk_common").ms_harnesses(("SEL_SEEKREAD",))
+# ALAC staging layer (K-block contract for the bit-stream library)
+HARNESSES += _load("blk_common").alac_stage_harnesses(("SEL_SEEK", "SEL_READ"))
 
 META = {"assumptions": ["I_open handle invariant", "K-seek: codec seek returns the target or -1"], "outside": []}
